@@ -32,6 +32,7 @@ void verif_assume(int c) { if (!c) { printf("ASSUME-FALSE\n"); fflush(stdout); _
 void verif_assert(int c, const char* msg) { if (!c) { printf("VERIF-ASSERT-FAILED %s\n", msg); fflush(stdout); _exit(99); } }
 void verif_reach(const char* name) { printf("REACH %s\n", name); }
 void verif_note(const char* name, uint64_t v) { printf("NOTE %s %llu\n", name, (unsigned long long)v); }
+void verif_hook(const char*) {}
 void verif_fail(const char* msg) { printf("VERIF-ASSERT-FAILED %s\n", msg); fflush(stdout); _exit(99); }
 static uint64_t param(const char* name)
 {
